@@ -17,11 +17,11 @@ import (
 
 type Base struct{ P string }
 
-func (b Base) Prop() string                                                       { return b.P }
-func (Base) OnGenesis(*eng.Engine, map[string]json.RawMessage, *obs.Snapshot)     {}
-func (Base) AfterBeginBlock(*eng.Engine, *eng.BlockRec)                           {}
-func (Base) AfterTx(*eng.Engine, *eng.TxRec)                                      {}
-func (Base) Finish(*eng.Engine, map[string]interface{})                           {}
+func (b Base) Prop() string                                                   { return b.P }
+func (Base) OnGenesis(*eng.Engine, map[string]json.RawMessage, *obs.Snapshot) {}
+func (Base) AfterBeginBlock(*eng.Engine, *eng.BlockRec)                       {}
+func (Base) AfterTx(*eng.Engine, *eng.TxRec)                                  {}
+func (Base) Finish(*eng.Engine, map[string]interface{})                       {}
 
 var zero = new(big.Rat)
 
